@@ -270,6 +270,78 @@ class GaussGaussPrior(VFModel):
         return [float(d.mean())] * k, [float(d.var())] * k
 
 
+class GaussCut(GaussUniform):
+    """GaussUniform whose likelihood is exactly zero (log-likelihood -inf) on
+    part of the prior volume: x0 + x1 > cut (a hard constraint expressed in
+    the likelihood).  Both samplers accept it: the standard sampler never
+    keeps such a point, the importance sampler keeps it with zero weight."""
+
+    def __init__(self, dims=2, lo=-5.0, hi=5.0, cut=1.0):
+        super().__init__(dims=dims, lo=lo, hi=hi)
+        self.cut = float(cut)
+
+    def _log_l(self, x):
+        ll = super()._log_l(x)
+        out = x[self.names[0]] + x[self.names[1]] > self.cut
+        return np.where(out, -np.inf, ll)
+
+    true_log_evidence = None
+
+
+class GaussAffine(GaussGaussPrior):
+    """GaussGaussPrior with an *affine* unit-hypercube map: the prior is not
+    uniform on the unit hypercube, so the model overrides
+    `log_prior_unit_hypercube` (prior density of the unit-cube coordinates).
+    Only exactly rounded operations."""
+
+    exact = True
+
+    def __init__(self, dims=2, b=6.0, s_p=2.0, mu_l=1.0, s_l=1.0):
+        super().__init__(dims=dims, b=b, s_p=s_p, mu_l=mu_l, s_l=s_l)
+        self._log_jac = dims * math.log(2.0 * self.b)
+
+    def to_unit_hypercube(self, x):
+        out = x.copy()
+        for n in self.names:
+            out[n] = (x[n] + self.b) / (2.0 * self.b)
+        return out
+
+    def from_unit_hypercube(self, x):
+        out = x.copy()
+        for n in self.names:
+            out[n] = x[n] * (2.0 * self.b) - self.b
+        return out
+
+    def log_prior_unit_hypercube(self, x):
+        inside = None
+        for n in self.names:
+            ok = (x[n] >= 0.0) & (x[n] < 1.0)
+            inside = ok if inside is None else (inside & ok)
+        lp = self.log_prior(self.from_unit_hypercube(x)) + self._log_jac
+        return np.where(inside, lp, -np.inf)
+
+    def ref_log_prior_unit(self, x):
+        """Pointwise reference for the unit-hypercube log-prior, computed
+        from plain Python floats (harness side)."""
+        out = np.empty(x.size)
+        for i in range(x.size):
+            s = 0.0
+            first = True
+            inside = True
+            for n in self.names:
+                u = float(x[n][i])
+                inside = inside and (0.0 <= u < 1.0)
+                v = u * (2.0 * self.b) - self.b
+                inside = inside and (-self.b <= v <= self.b)
+                t = v / self.s_p
+                t = t * t
+                s = t if first else s + t
+                first = False
+            lp = (len(self.names) * self._lp_norm - 0.5 * s) + self._log_jac
+            out[i] = lp if inside else -math.inf
+        return out
+
+
 class Quantised(GaussUniform):
     """Gaussian likelihood rounded down to a grid below `level` (tied
     likelihoods among early dead points), continuous above it."""
@@ -395,6 +467,8 @@ REGISTRY = {
     "gauss_uniform": GaussUniform,
     "gauss_gauss": GaussGaussPrior,
     "gauss_hole": GaussHole,
+    "gauss_cut": GaussCut,
+    "gauss_affine": GaussAffine,
     "quantised": Quantised,
     "rosenbrock": Rosenbrock,
     "periodic": PeriodicAngle,
@@ -416,6 +490,7 @@ def selftest():
         {"name": "gauss_uniform", "dims": 2, "lo": -4.0, "hi": 6.0,
          "mu": 1.0},
         {"name": "gauss_gauss", "dims": 2},
+        {"name": "gauss_affine", "dims": 2},
         {"name": "gw_named"},
     ):
         m = make_model(spec)
